@@ -666,10 +666,10 @@ func runCase(c driver.Case) driver.Result {
 
 func main() {
 	driver.Main(driver.Property{
-		ID:    "C05",
-		Level: "exploration",
-		Rule:  "every multi-source catalogue entry with a small-step definition × every tuple of per-source scripts (values unique per source, length ≤ bound, ending complete/error/silence) × EVERY arrival order of those scripts (enumerated with the definition, each executed on a fresh pipeline over puppet sources, one notification processed to completion/quiescence before the next). Oracle after each single notification: cumulative trace == definition's cumulative output; every source the definition still listens to is subscribed; once the output ended every source is released. Concurrent part: the same kind of scripts played by free-running goroutines (yield/jitter at the hook points); the observed trace must be the definition's output for SOME arrival order compatible with per-source order and real time (emission call/return on a logical clock). Non-trivial: callbacks observed; the evidence counts arrival orders executed.",
-		Assume: []string{"small-step definitions follow the property statement (merge/concat/combine-latest/zip/race…) and behaviour pinned by the repository's tests for the *Until/*When operators", "the explaining-interleaving search gives up (no verdict) after 200000 nodes"},
+		ID:        "C05",
+		Level:     "exploration",
+		Rule:      "every multi-source catalogue entry with a small-step definition × every tuple of per-source scripts (values unique per source, length ≤ bound, ending complete/error/silence) × EVERY arrival order of those scripts (enumerated with the definition, each executed on a fresh pipeline over puppet sources, one notification processed to completion/quiescence before the next). Oracle after each single notification: cumulative trace == definition's cumulative output; every source the definition still listens to is subscribed; once the output ended every source is released. Concurrent part: the same kind of scripts played by free-running goroutines (yield/jitter at the hook points); the observed trace must be the definition's output for SOME arrival order compatible with per-source order and real time (emission call/return on a logical clock). Non-trivial: callbacks observed; the evidence counts arrival orders executed. Also: sequences in which one source emits a value inside its subscribe function and goes on afterwards (seq-head<i>), all arrival orders from the state after that value.",
+		Assume:    []string{"small-step definitions follow the property statement (merge/concat/combine-latest/zip/race…) and behaviour pinned by the repository's tests for the *Until/*When operators", "the explaining-interleaving search gives up (no verdict) after 200000 nodes"},
 		Plan:      plan,
 		Run:       runCase,
 		CaseWatch: 120 * time.Second,
